@@ -743,12 +743,67 @@ PER_PART = {
 }
 SCORE_WIDE = {
     'divisions': 'set by <attributes> of every part before its first note in complete measures',
-    'qpm': 'tempo marks apply to the whole score (the reader reports them score-wide)',
-    'seconds_per_quarter': 'derived from qpm',
+    'seconds_per_quarter': 'derived from qpm (judged with it: STATE/running-tempo-per-part)',
     'velocity': 'dynamics carry over as in the original parser (not a clause of the property)',
     'previous_note': 'set by every non-chord note before it is read by a chord note',
     'time_signature': 'one time signature for all parts (polymeter unsupported by design)',
 }
+
+
+# running values: written while a part is read, and read to time the notes that follow
+RUNNING = {
+    'qpm': 'tempo marks apply to the whole score, and "each part restarts at zero": at the start of a part the tempo in force is the one at time zero, not the last tempo of the previous part',
+}
+
+
+def running_tempo(ctx, part, loop, delegated):
+  """Location-independent: state.qpm is a running value - written by <sound tempo> while a part is read and used to time every
+  following note - and every part restarts at time zero.  If nothing before a part's measure loop re-establishes it, the second
+  part starts with the *last* tempo of the first: in a score whose tempo changes, every part without tempo marks of its own (the
+  usual case: marks stand in the top part only) is timed at the final tempo throughout."""
+  for f, why in sorted(RUNNING.items()):
+    sts = [st for st in part.node.body[:loop] if isinstance(st, ast.Assign) and len(st.targets) == 1 and isinstance(st.targets[0], ast.Attribute) and st.targets[0].attr == f and
+           norm_text(st.targets[0].value) in ('self._state', 'self.state')]
+    cons = 'Part._parse re-establishes state.%s before the measures of a part' % f
+    if sts or f in delegated:
+      whyu = 'cannot classify: state.%s is assigned before the measures of a part; whether the value is the tempo in force at time zero (and later changes of other parts are applied) is not decided' % f
+      ctx.ob('STATE/running-tempo-per-part', part, sts[0] if sts else part.node, False, whyu, construct=cons, unknown=whyu)
+    else:
+      ctx.ob('STATE/running-tempo-per-part', part, part.node, False, 'the shared parser state field %s is a running value (written by <sound tempo> inside a measure, read to time every later note) and '
+             'is not re-established when a part starts although time_position is reset to 0: %s' % (f, why), construct=cons, definite=True)
+
+
+def running_tempo_after_backup(ctx):
+  """Location-independent: <backup> moves the cursor to an earlier position of the bar.  The amount is converted to seconds
+  with the running state.seconds_per_quarter, and the running tempo stays what it was at the later position.  Both are right
+  only if no tempo mark lies between the two positions; the parser keeps no map of tempo marks by position, so a bar with two
+  voices and a tempo change inside it is timed wrongly (the cursor does not return to where the first voice started, and the
+  second voice is timed at the later tempo from its first note)."""
+  mi = ctx.P.module('musicxml_parser')
+  cons = 'a backward move of the cursor re-establishes the tempo in force at the earlier position'
+  n = 0
+  for fi in mi.all_functions.values():
+    fn = fi.node
+    for st in U.walk_stmts(fn, into_nested=False):
+      if not (isinstance(st, ast.AugAssign) and isinstance(st.op, ast.Sub) and isinstance(st.target, ast.Attribute) and st.target.attr == 'time_position'):
+        continue
+      n += 1
+      amount = U.expand_locals(fn, st.value, at=st)
+      at_running = any(isinstance(x, ast.Attribute) and x.attr in ('seconds_per_quarter', 'qpm') for x in ast.walk(amount))
+      restores = any(isinstance(t, ast.Attribute) and t.attr in ('qpm', 'seconds_per_quarter') for s_ in U.walk_stmts(fn, into_nested=False) for t, _v, _o in U.store_targets(s_))
+      calls = [c for c in U.calls_in(fn) if isinstance(c.func, ast.Attribute) and norm_text(c.func.value) in ('self.state', 'self._state')]
+      if restores or calls:
+        why = 'cannot classify: %s also writes the running tempo / calls the state object; whether the tempo in force at the earlier position is restored is not decided' % fi.qualname
+        ctx.ob('STATE/running-tempo-after-backup', fi, st, False, why, construct=cons, unknown=why)
+      elif at_running:
+        ctx.ob('STATE/running-tempo-after-backup', fi, st, False, '%s moves the cursor back by an amount converted at the running tempo (%s) and leaves the running tempo as it is: when a tempo mark '
+               'lies inside the span, the cursor does not land where the earlier voice started and the following notes are timed at the later tempo from the start' % (
+                   fi.qualname, norm_text(st.value)[:60]), construct=cons, definite=True)
+      else:
+        ctx.ob('STATE/running-tempo-after-backup', fi, st, True, 'the backward move does not depend on the running tempo', construct=cons)
+  if n == 0:
+    why = 'cannot classify: no statement moves time_position backwards'
+    ctx.ob('STATE/running-tempo-after-backup', mi, mi.tree, False, why, construct=cons, unknown=why)
 
 
 def part_state(ctx):
@@ -762,7 +817,7 @@ def part_state(ctx):
         if isinstance(tgt, ast.Attribute) and isinstance(tgt.value, ast.Attribute) and tgt.value.attr in ('state', '_state') and \
             isinstance(tgt.value.value, ast.Name) and tgt.value.value.id == 'self':
           written.setdefault(tgt.attr, []).append((fi, st))
-  unknown = sorted(set(written) - set(PER_PART) - set(SCORE_WIDE))
+  unknown = sorted(set(written) - set(PER_PART) - set(SCORE_WIDE) - set(RUNNING))
   if unknown:
     raise AnalysisError('parser state field(s) %s are written but classified neither per-part nor score-wide: cannot decide the per-part reset rule' % unknown)
   part = ctx.func('musicxml_parser:Part._parse')
@@ -787,6 +842,8 @@ def part_state(ctx):
           elif isinstance(v, ast.Name) and v.id in amap:
             txt = norm_text(amap[v.id])
           delegated[hs.targets[0].attr] = (txt, v, hs)
+  running_tempo(ctx, part, loop, delegated)
+  running_tempo_after_backup(ctx)
   for f, (kind, val, why) in sorted(PER_PART.items()):
     sts = [st for st in part.node.body[:loop] if isinstance(st, ast.Assign) and len(st.targets) == 1 and isinstance(st.targets[0], ast.Attribute) and st.targets[0].attr == f and
            norm_text(st.targets[0].value) in ('self._state', 'self.state')]
